@@ -2,6 +2,7 @@ package main
 
 import (
 	"fmt"
+	"sort"
 	"strconv"
 	"strings"
 
@@ -114,6 +115,18 @@ func (st *c16state) observe() string {
 	return sb.String()
 }
 
+// worksheet-scoped defined names as GetDefinedName reports them: name@scope, sorted
+func (st *c16state) scopedNames() string {
+	var ns []string
+	for _, dn := range st.f.GetDefinedName() {
+		if dn.Scope != "Workbook" && dn.Scope != "" {
+			ns = append(ns, hexb(dn.Name)+"@"+hexb(dn.Scope))
+		}
+	}
+	sort.Strings(ns)
+	return strings.Join(ns, ",")
+}
+
 // direct oracle on the implementation's own observations
 func (c *Ctx) c16Oracle(st *c16state, desc interface{}) {
 	f := st.f
@@ -194,7 +207,10 @@ func (c *Ctx) c16Run(ops []wop, cases *[]mcase) {
 			}
 			if t, ok := o.token(); ok {
 				toks = append(toks, t)
-			} else {
+			} else if o.K == "DN" && o.A != "" && o.A != "Workbook" {
+				// a worksheet-scoped definition (the name was chosen by apply); workbook-level names are not modelled
+				toks = append(toks, "DN,"+hexb(fmt.Sprintf("dn%d", st.dnCount))+","+hexb(o.A))
+			} else if o.K != "DN" {
 				modelOK = false
 			}
 			c.c16Oracle(st, ops[:i+1])
@@ -205,7 +221,7 @@ func (c *Ctx) c16Run(ops []wop, cases *[]mcase) {
 		}
 		c.Count("history", len(ops) >= 2, fmt.Sprint(ops))
 		if modelOK {
-			*cases = append(*cases, mcase{Req: "c16.run " + strings.Join(toks, " "), Impl: st.observe() + " consistent=t", Rel: "c16.run", Desc: ops})
+			*cases = append(*cases, mcase{Req: "c16.run " + strings.Join(toks, " "), Impl: st.observe() + " consistent=t names=" + st.scopedNames(), Rel: "c16.run", Desc: ops})
 		}
 	})
 }
